@@ -429,6 +429,10 @@ RelayNumMono ==
         /\ (sess[o][i].lk # 0 /\ rs[sess[o][i].lk].pc = "addcu" /\ rs'[sess[o][i].lk].pc = "held")
               => sess'[o][i].rn = sess[o][i].rn + 1]_vars
 
+\* NOT an invariant of the code (documented quirk, see notes): the per-router-key cache of valid addresses can be stale,
+\* because setValidAddressesToDefaultValue refreshes only the key it was called for.
+CacheFresh == \A ad \in BOOLEAN : cache[ad].ok => cache[ad].v = CalcValid(ad, valid)
+
 \* sanity: the blocked-provider rule is NOT atomic with the final pick (documented, see notes): a provider may be
 \* unblocked between the two RLock sections.  Used only with expectation "violated" in manual runs.
 BlockedRuleAtomic ==
